@@ -204,3 +204,108 @@ Proof.
   destruct (app_is_matched p _ _ Hwf Hna Sp) as [Em _]. rewrite Hr.
   rewrite app_nil_r in Em. symmetry. exact Em.
 Qed.
+
+(* the leaf at index path [id] of the table [tbl] that stands at address [dir] is
+   reached by the relative address [a]: the table of the leaf stands at [dirF], the
+   switches of the pointer sub-trees passed on the way are [extra] (outermost
+   first), the part of [a] the leaf's own name spells is [aL] *)
+Fixpoint descends (tbl : list pt) (id : list nat) (dir a dirF : str) (extra : list str)
+         (nm : str) (arr : option nat) (d : leafdata) (aL : str) {struct id} : Prop :=
+  match id with
+  | [] => False
+  | j :: rest =>
+      match nth_error tbl j with
+      | Some (PLeaf nm' arr' d') =>
+          rest = [] /\ In a (expand (leaf_segs nm' arr')) /\
+          dirF = dir /\ extra = [] /\ nm' = nm /\ arr' = arr /\ d' = d /\ aL = a
+      | Some (PSub nm' enum ptr sw sub) =>
+          exists x a' extra', In x (expand (sub_segs nm' enum)) /\ a = x ++ a' /\
+            extra = olist (option_map (fun g => dir ++ g) ptr) ++ extra' /\
+            descends sub rest (dir ++ x) a' dirF extra' nm arr d aL
+      | None => False
+      end
+  end.
+
+Definition leaf_args (d : leafdata) : str := render_types (Some (kind_types (ld_kind d))).
+
+Lemma descends_reaches : forall id tbl dir a dirF extra nm arr d aL ty,
+  descends tbl id dir a dirF extra nm arr d aL -> admits (leaf_args d) ty ->
+  reaches (sports_of tbl) id a ty.
+Proof.
+  induction id as [|j rest IH]; intros tbl dir a dirF extra nm arr d aL ty H Hty; [contradiction|].
+  cbn [descends] in H. cbn [reaches]. unfold sports_of. rewrite nth_error_map.
+  destruct (nth_error tbl j) as [[nm' arr' d'|nm' enum ptr sw sub]|]; [| |contradiction].
+  - destruct H as (-> & Ha & _ & _ & _ & _ & -> & _). cbn [option_map sport_of]. auto.
+  - destruct H as (x & a' & extra' & Hx & -> & _ & H). cbn [option_map sport_of].
+    exists x, a'. split; [exact Hx|]. split; [reflexivity|]. exact (IH sub _ _ _ _ _ _ _ _ ty H Hty).
+Qed.
+
+Lemma kind_types_ok : forall k, types_ok (Some (kind_types k)).
+Proof.
+  intros k. unfold types_ok. split; [destruct k; discriminate|].
+  destruct k; repeat constructor; cbn; lia.
+Qed.
+
+Section Tree.
+  Variable hp : list sport -> list Z * list Z.
+  Variable tid : list sport -> Z.
+  Variable A : app.
+
+  Definition sw_on (s : state) (g : str) : bool := is_on (val_at s (idx_of (map p_path A) g)).
+
+  Lemma to_tree_ports : forall l j q,
+    nth_error l j = Some q ->
+    nth_error (t_ports (tab_of (to_tree hp tid l))) j = Some (sname q, is_sub q).
+  Proof. intros l j q E. unfold to_tree. cbn [tab_of mk_table t_ports]. rewrite nth_error_map, E. reflexivity. Qed.
+
+  Lemma to_tree_subs : forall l j q,
+    nth_error l j = Some q -> nth_error (subs_of (to_tree hp tid l)) j = Some (to_tree_port hp tid q).
+  Proof. intros l j q E. unfold to_tree. cbn [subs_of]. rewrite nth_error_map, E. reflexivity. Qed.
+
+  Lemma run_chain : forall id tbl dir a dirF extra nm arr d aL ty o arg s,
+    descends tbl id dir a dirF extra nm arr d aL ->
+    Forall dok (sports_of tbl) -> admits (leaf_args d) ty ->
+    run_events A tbl dir (chain id (to_tree hp tid (sports_of tbl)) a ty o (Some dir)) arg s =
+    if forallb (sw_on s) extra then leaf_cb A (dirF ++ nm) nm arr d (dirF ++ aL) aL arg s else None.
+  Proof.
+    induction id as [|j rest IH]; intros tbl dir a dirF extra nm arr d aL ty o arg s H Hok Hty; [contradiction|].
+    pose proof (reaches_chars (sports_of tbl) (j :: rest) a ty Hok
+                  (descends_reaches _ _ _ _ _ _ _ _ _ _ ty H Hty)) as Hch.
+    assert (Hnul : nul_free ty) by (destruct Hty as (tys & _ & _ & Hn & _); exact Hn).
+    cbn [descends] in H.
+    destruct (nth_error tbl j) as [[nm' arr' d'|nm' enum ptr sw sub]|] eqn:E; [| |contradiction].
+    - (* the leaf *)
+      destruct H as (-> & Ha & -> & -> & -> & -> & -> & ->).
+      assert (Es : nth_error (sports_of tbl) j = Some (sport_of (PLeaf nm arr d)))
+        by (unfold sports_of; rewrite nth_error_map, E; reflexivity).
+      rewrite Forall_forall in Hok. pose proof (Hok _ (nth_error_In _ _ Es)) as Hq.
+      cbn [sport_of dok] in Hq. destruct Hq as [Hw Hls].
+      pose proof (leaf_matches _ _ ty a Hw Hls Hty Ha) as Hm. unfold leaf_args in Hm.
+      cbn [chain]. rewrite (to_tree_ports _ _ _ Es). cbn [sport_of sname is_sub].
+      change (render_name (leaf_segs nm arr) (render_types (Some (kind_types (ld_kind d)))))
+        with (flatten (leaf_segs nm arr) ++ render_types (Some (kind_types (ld_kind d)))).
+      rewrite Hm. rewrite (to_tree_subs _ _ _ Es). cbn [sport_of to_tree_port].
+      rewrite leaf_app_of; [|assumption|assumption| |assumption].
+      + cbn [option_map run_events forallb]. rewrite Nat2Z.id, E. reflexivity.
+      + apply kind_types_ok.
+    - (* a sub-tree port *)
+      destruct H as (x & a' & extra' & Hx & -> & -> & H).
+      assert (Es : nth_error (sports_of tbl) j = Some (sport_of (PSub nm' enum ptr sw sub)))
+        by (unfold sports_of; rewrite nth_error_map, E; reflexivity).
+      rewrite Forall_forall in Hok. pose proof (Hok _ (nth_error_In _ _ Es)) as Hq.
+      cbn [sport_of dok] in Hq. destruct Hq as [_ [[cs [Ecs [Hne Hc]]] [_ Hall]]].
+      assert (Haddr : addr_ok (x ++ a')) by (eapply Forall_impl; [|exact Hch]; intros ch Hc'; apply Hc').
+      rewrite Ecs in Hx.
+      destruct (subtree_matches cs ty x a' Hne Hc Hx Haddr Hnul) as [Hm Hs].
+      cbn [chain]. rewrite (to_tree_ports _ _ _ Es). cbn [sport_of sname is_sub].
+      change (render_name (sub_segs nm' enum) []) with (flatten (sub_segs nm' enum) ++ []).
+      rewrite Ecs, Hm, Hs. rewrite (to_tree_subs _ _ _ Es). cbn [sport_of]. rewrite (to_tree_port_sub hp tid).
+      rewrite (sub_app_of cs x a' Hne Hc Hx).
+      cbn [option_map run_events]. rewrite Nat2Z.id, E.
+      fold (sports_of sub).
+      rewrite (IH sub (dir ++ x) a' dirF extra' nm arr d aL ty _ arg s H (dok_all _ Hall) Hty).
+      destruct ptr as [g|]; cbn [option_map olist app forallb]; [|reflexivity].
+      change ([dir ++ g] ++ extra') with ((dir ++ g) :: extra'). cbn [forallb]. unfold sw_on.
+      destruct (is_on (val_at s (idx_of (map p_path A) (dir ++ g)))); cbn [negb andb]; reflexivity.
+  Qed.
+End Tree.
